@@ -1,6 +1,7 @@
 package main
 
 import (
+	"math/rand"
 	"encoding/json"
 	"fmt"
 	"os"
@@ -28,12 +29,17 @@ func init() {
 	// known findings are identified by the rendering in which the carrier defect shows (known_findings.txt)
 	classifiers["C10"] = func(v Violation) string {
 		q, _ := v.Case["baseline_query"].(string)
+		// a recorded carrier defect is one the faithful model reproduces (each class has its `_refuted`
+		// lemma in Coq): a deviation in one of these renderings that the model does NOT predict is new
+		if ok, _ := v.Case["model_predicts"].(bool); !ok {
+			return ""
+		}
 		switch v.Case["rendering"] {
 		case "named-strings-bools":
 			return "named-string-or-bool-values"
 		case "pointers":
 			return "pointer-inside-interface-slot"
-		case "structs":
+		case "structs", "structs-shuffled":
 			if wholeObjectQuery.MatchString(q) {
 				return "struct-vs-map-whole-object"
 			}
@@ -94,7 +100,21 @@ func homogeneous(xs []*D) (string, bool) {
 	return t, true
 }
 
-func renderingsC10() []rendering {
+// shuffleFields permutes the fields of every struct in d (the order of declaration is not part of the
+// object): documents of one run then carry the same key at different field positions
+func shuffleFields(d *D, rng *rand.Rand) *D {
+	return mapD(d, func(x *D) *D {
+		if x.Tag == "st" && len(x.Fs) > 1 {
+			n := *x
+			n.Fs = append([]h.Field{}, x.Fs...)
+			rng.Shuffle(len(n.Fs), func(i, j int) { n.Fs[i], n.Fs[j] = n.Fs[j], n.Fs[i] })
+			return &n
+		}
+		return x
+	})
+}
+
+func renderingsC10(rng *rand.Rand) []rendering {
 	isIntegral := func(d *D) bool { return d.Tag == "f" && d.F == "" && d.Exp >= 0 && d.Coef.IsInt64() }
 	intVal := func(d *D) int64 {
 		v := d.Coef.Int64()
@@ -106,6 +126,7 @@ func renderingsC10() []rendering {
 	return []rendering{
 		{"json", func(d *D) *D { return d }},
 		{"structs", func(d *D) *D { return toStruct(d) }},
+		{"structs-shuffled", func(d *D) *D { return shuffleFields(toStruct(d), rng) }},
 		{"typed-slices", func(d *D) *D {
 			return mapD(d, func(x *D) *D {
 				if x.Tag == "sl" {
@@ -347,7 +368,7 @@ func jsonOf(d *D) any {
 
 func c10(c *Ctx) {
 	n := c.N(4000, 60000)
-	rends := renderingsC10()
+	rends := renderingsC10(c.Rng)
 	c.Rule = fmt.Sprintf("random (query over the function set F10, rectangular document) pairs x %d renderings of the document (%s) + the document as JSON and YAML text re-parsed by the query; results compared across renderings after forgetting the carrier, and with the model. Non-trivial = the baseline evaluation succeeds; distinct by (query, data).", len(rends), func() string {
 		ns := []string{}
 		for _, r := range rends {
@@ -401,7 +422,8 @@ func c10(c *Ctx) {
 				}
 				c.Violation("relation", fmt.Sprintf("query %q: the %s rendering of the same document gives %s, the JSON rendering gives %s", gr.q, gr.names[i+1], short(got), short(base)),
 					map[string]any{"kind": "eval", "query": ec.Query, "data": ec.Data.String(), "err_class": true, "baseline_query": gr.q, "baseline_data": gr.cases[0].Data.String(),
-						"implementation": ec.Impl.String(), "impl_note": ec.Impl.Note, "baseline": gr.cases[0].Impl.String(), "rendering": gr.names[i+1]})
+						"implementation": ec.Impl.String(), "impl_note": ec.Impl.Note, "baseline": gr.cases[0].Impl.String(), "rendering": gr.names[i+1],
+						"model_predicts": ec.Model.Class != "declined" && obs(ec.Model, true) == got})
 			}
 		}
 	}
